@@ -89,6 +89,19 @@ def rule_mir_generate(ctx):
     if not writes or not gens:
         return [bad('MIR-WRITE-AFTER-GEN', 'floor', 'anchor-missing: %d file creations, %d library calls in the MIR of generate_code' % (len(writes), len(gens)))]
     dominated_by_success(m, gens[0], writes, 'generate_module_token_stream(..)', 'MIR-WRITE-AFTER-GEN', 'generate/generation', obs)
+    # must-pass-through: no path from the entry to a non-error return avoids the file creation
+    errs = m.error_blocks()
+    badp = None
+    for r in m.returns():
+        p = m.path_avoiding(0, r, avoid=set(writes) | errs)
+        if p:
+            badp = p
+            break
+    if badp:
+        obs.append(bad('MIR-WRITE-AFTER-GEN', 'generate/write-on-success', 'a path returns successfully without creating the file: %s' % witness(m, badp), m.sp(badp[-1]),
+                       'the command exits 0 although `<stem>.rs` was not written'))
+    else:
+        obs.append(ok('MIR-WRITE-AFTER-GEN', 'generate/write-on-success', 'every path to a non-error return passes through the file creation (%d returns, %d error blocks)' % (len(m.returns()), len(errs)), m.sp(writes[0])))
     fmts = m.calls_named('generate::format')
     for i, f in enumerate(fmts):
         e = m.try_edges(f)
